@@ -12,8 +12,12 @@
     `dec (enc x ++ rest) = ok x rest` composes.  `allocs` is the list of buffer sizes the loader
     derives from a length field (`vec![0u8; len]` in `read_string`, the only such site), in order,
     including the one whose `read_exact` then fails — kept for C10 (`loader_alloc_bounded`).
-  * `Fix` holds the quirk switches; `Fix.code` is the tree as pinned, `Fix.fixed` the prescribed
-    behaviour.  The writer has no switch (both proposed repairs touch the loader only).
+  * `Fix` holds the quirk switches of the loader; `Fix.code` is the tree as pinned, `Fix.fixed` the
+    prescribed behaviour.  The writer has ONE switch, the escape rule for lists (`escValue esc`,
+    `saveSnapshot esc`): with it a genuine list whose first element is the stream marker string or
+    the escape string is written with one extra first element, the escape string — by the SAME
+    byte-level writer (`encValue`, `encSnapshot`: the format itself does not change).  The loader's
+    side of the rule is `Fix.listEscape`.
   * hash-map iteration order is not modelled: encoders emit collections in the given order and the
     loader appends in file order; comparisons with the implementation are made on canonical
     (sorted) forms by the check.
@@ -61,14 +65,23 @@ structure Fix where
   /-- `true`: a marker-only list (an empty stream) creates the empty stream key (proposed `fix:`);
       `false` (pinned tree): nothing is created, the key is lost. -/
   keepEmptyStream : Bool
+  /-- `true`: under the LIST opcode a first element equal to the escape string is dropped and the
+      elements after it are a plain list, whatever the first of them is (proposed `fix:`, the
+      loader's half of the escape rule); `false` (pinned tree): the escape string is an element
+      like any other. -/
+  listEscape : Bool
   deriving DecidableEq, Repr
 
-def Fix.code : Fix := ⟨false, false⟩
-def Fix.fixed : Fix := ⟨true, true⟩
+def Fix.code : Fix := ⟨false, false, false⟩
+def Fix.fixed : Fix := ⟨true, true, true⟩
 
 /-- `b"__FERROUS_STREAM_MARKER__"` (25 bytes). -/
 def marker : Bytes :=
   [95, 95, 70, 69, 82, 82, 79, 85, 83, 95, 83, 84, 82, 69, 65, 77, 95, 77, 65, 82, 75, 69, 82, 95, 95]
+
+/-- `b"__FERROUS_LIST_ESCAPE__"` (23 bytes). -/
+def escape : Bytes :=
+  [95, 95, 70, 69, 82, 82, 79, 85, 83, 95, 76, 73, 83, 84, 95, 69, 83, 67, 65, 80, 69, 95, 95]
 
 def two32 : Nat := 4294967296
 def two64 : Nat := 18446744073709551616
@@ -134,6 +147,30 @@ def encValue : Value → Bytes
 /-- type byte, key, value -/
 def encKV (k : Bytes) (v : Value) : Bytes := typeByte v :: (encString k ++ encValue v)
 
+/-! #### the escape rule of the writer (switch `esc`; `false` = pinned tree) -/
+
+/-- `list_needs_escape`: the first element is the stream marker string or the escape string -/
+def needsEscape : List Bytes → Bool
+  | x :: _ => x == marker || x == escape
+  | [] => false
+
+/-- the elements `write_key_value` puts under the LIST opcode for a genuine list: with the rule,
+    one extra first element (the escape string) when the list starts with a reserved string -/
+def listItems (esc : Bool) (xs : List Bytes) : List Bytes :=
+  if esc && needsEscape xs then escape :: xs else xs
+
+/-- the value as the byte-level writer sees it (only lists are touched; a stream keeps its marker) -/
+def escValue (esc : Bool) : Value → Value
+  | .list xs => .list (listItems esc xs)
+  | v => v
+
+def escEntry (esc : Bool) (e : Entry) : Entry := { e with val := escValue esc e.val }
+def escDb (esc : Bool) (db : Db) : Db := db.map (escEntry esc)
+def escDataset (esc : Bool) (d : Dataset) : Dataset := d.map fun p => (p.1, escDb esc p.2)
+
+/-- what `write_key_value` writes after the key, with the escape rule switched by `esc` -/
+def saveValue (esc : Bool) (v : Value) : Bytes := encValue (escValue esc v)
+
 /-- One key at save time `t`.  `storage.get` drops a key whose deadline has passed (`now > expires_at`);
     otherwise `ttl = max(deadline - now, 0)` and the stamp is `now_ms + ttl_ms` as `u64` (wrapping). -/
 def encEntry (t : Nat) (e : Entry) : Bytes :=
@@ -170,6 +207,10 @@ def encBody (ver : Bytes) (d : Dataset) (t : Nat) : Bytes :=
 def encSnapshot (ver : Bytes) (d : Dataset) (t : Nat) : Bytes :=
   let body := encBody ver d t
   body ++ u64le body.sum
+
+/-- `write_snapshot` of a tree whose writer applies the escape rule iff `esc` -/
+def saveSnapshot (esc : Bool) (ver : Bytes) (d : Dataset) (t : Nat) : Bytes :=
+  encSnapshot ver (escDataset esc d) t
 
 /-! ### Reader primitives (`RdbReader`) -/
 
@@ -428,6 +469,17 @@ def streamLoop (valid : Bool) (k : Bytes) (remaining : Nat) : Nat → Nat → Db
           | none => db
         streamLoop valid k remaining f ((idx + 2 + 2 * fc) % two64) db' r3
 
+/-- The plain-list loop of the loader on `n` elements: `read_string` + `rpush` each, then `expire`
+    (summarised as explained at `loadTyped`).  Nothing is created for `n = 0`. -/
+def loadPlainList (valid : Bool) (db : Db) (k : Bytes) (dl : Option Nat) (n : Nat) (bs : Bytes) : Res (Bytes × Db) :=
+  if n ≥ 1 then
+    (readString bs).bind fun x r =>
+    (lift (rpush valid db k x) r).bind fun db0 r' =>
+    (readStrings (n - 1) r').bind fun xs r3 =>
+    (lift (expireOpt valid (rpushMore db0 k xs) k dl) r3).bind fun db2 r4 => .ok (k, db2) r4 []
+  else
+    (lift (expireOpt valid db k dl) bs).bind fun db2 r4 => .ok (k, db2) r4 []
+
 /-- `read_key_value_with_type`: returns the key (the proposed `fix:` needs it) and the new database.
     `dl` is the absolute deadline for `expire`/`set_string_ex`, `none` for "no TTL".
     Loop summarisation (lists, sorted sets): the code interleaves `read_string` and `rpush`/`zadd` per
@@ -460,6 +512,8 @@ def loadTyped (fix : Fix) (valid : Bool) (db : Db) (ty : Nat) (dl : Option Nat) 
         (lift (if fix.keepEmptyStream ∧ n - 1 = 0 then setValue valid db ⟨k, .stream [], none⟩ else .ok db) r2).bind fun db0 r2' =>
         (streamLoop valid k (n - 1) (r2'.length + 1) 0 db0 r2').bind fun db1 r3 =>
         (lift (expireOpt valid db1 k dl) r3).bind fun db2 r4 => .ok (k, db2) r4 []
+      else if fix.listEscape ∧ first = escape then
+        loadPlainList valid db k dl (n - 1) r2
       else
         (lift (rpush valid db k first) r2).bind fun db0 r2' =>
         (readStrings (n - 1) r2').bind fun xs r3 =>
@@ -619,9 +673,15 @@ def dbWF (db : Db) : Bool :=
 def datasetWF (d : Dataset) : Bool :=
   (d.all fun p => decide (p.1 < numDbs) && !p.2.isEmpty && dbWF p.2) && decide ((d.map (·.1)).Nodup)
 
-/-- deviation: a LIST whose first element is the stream marker string -/
+/-- deviation (without the escape rule): a LIST whose first element is the stream marker string -/
 def startsWithMarker : Value → Bool
   | .list (x :: _) => x == marker
+  | _ => false
+
+/-- a LIST whose first element is the marker or the escape string: the values the escape rule
+    touches.  Every other value is written and read the same way with and without the rule. -/
+def reservedHead : Value → Bool
+  | .list xs => needsEscape xs
   | _ => false
 
 /-- deviation: a stream without entries -/
